@@ -321,4 +321,4 @@ def parts(tier):
     Q.set_open({f["key"] for f in load_findings("C04") if f.get("status") == "known"})
     quick = tier == "quick"
     return [HypPart(name="render", check=check, strategy=_case,
-                    examples=30 if quick else 800, seconds=55 if quick else 800)]
+                    examples=30 if quick else 800, seconds=55 if quick else 600)]
